@@ -82,6 +82,11 @@ def gen_basisset(rng, tier):
                 ls = [l]
                 M = int(rng.choice([1, 1, 1, 2, 3, 4, 5, 6]))
             exps = np.sort(np.exp(rng.uniform(np.log(0.02), np.log(1e5), size=K)))[::-1]
+            if shells and rng.random() < 0.2:
+                # the block repeats the exponents of the block before it (P then SP, SP then P, D then D ...): blocks of one
+                # angular momentum on identical exponents are what the Gaussian94 reader merges, everything else stays apart
+                exps = np.array(shells[-1]["e"])
+                K = len(exps)
             coeffs = rng.normal(size=(K, M))
             coeffs[np.abs(coeffs) < 1e-3] = 0.5
             shells.append({"kind": kind, "ls": ls, "e": [float(x) for x in exps], "k": [[float(v) for v in r] for r in coeffs]})
